@@ -145,6 +145,8 @@ func MakeConfig(seed uint64, profile, tier string) SwarmConfig {
 		f.OutageLen = pick(r, []int{3, 10, 40})
 		f.ClockJump = pick(r, []float64{0.02, 0.08})
 		emph("perp", "levlp", "trader")
+		c.CoolDown = 10
+		c.Rate["canary"] = 1
 		if r.IntN(5) < 3 {
 			c.Rate["govedge"] = pick(r, []float64{0.3, 0.8})
 		}
